@@ -173,6 +173,9 @@ func c03Sites(g *hx.Gen) []c03Site {
 		{"", c03A, "", []string{"internal /int/i.txt", "internal /int/index.html", "internal /top.txt.gz"}, u},
 		{"", "", "", []string{"internal /top.txt.g", "internal /docs/ind"}, u},
 		{"", "", "", []string{"basicauth bob pw /top.txt.g,/docs/ind"}, u},
+		// directory scopes in normal form, no archives, no proxy: the class of C03_no_disclosure_dirscoped
+		{"", "/|", "", []string{"basicauth bob pw /secret/,/docs/ /secret/deep/", "internal /int/", "tryfiles {path} /pub/a.txt", "ext .txt"}, u},
+		{"/pre", "", "", []string{"basicauth bob pw /secret/", "basicauth alice pw2 /secret2/,/secret/deep/", "internal /int/sub/", "rewrite base /r /secret/s.txt /int/sub/j.txt"}, u},
 		{"", "", "", []string{"tryfiles {path} /pub/a.txt", "basicauth bob pw /secret"}, u},
 		{"", "", "", []string{"tryfiles {path} /secret/s.txt", "basicauth bob pw /secret"}, u},
 		{"/pre", "", "", []string{"tryfiles {path} /pub/a.txt", "basicauth bob pw /secret"}, u},
